@@ -108,8 +108,32 @@ struct DT_ : state_machine_def<DT_> {
 };
 typedef BE<DT_> DT;
 #endif
+#if !IS_MP11
+// the non-default policy event_queue_before_deferred_queue (back / back11): an event submitted by the behaviour of a RE-OFFERED deferred
+// event is dispatched right after that step - before any later event (C04 "stored and dispatched only after the current transition ... in
+// submission order")
+struct X1 {}; struct Y1 {};
+static std::string g_qlog;
+struct RaiseX { template<class Ev,class Fsm,class S,class T> void operator()(Ev const& e,Fsm& f,S&,T&){ g_qlog += "D" + std::to_string(e.id) + " "; f.process_event(X1()); } };
+struct LogX { template<class Ev,class Fsm,class S,class T> void operator()(Ev const&,Fsm&,S&,T&){ g_qlog += "X "; } };
+struct LogY { template<class Ev,class Fsm,class S,class T> void operator()(Ev const&,Fsm&,S&,T&){ g_qlog += "Y "; } };
+struct QF_ : state_machine_def<QF_> {
+  typedef int event_queue_before_deferred_queue;
+  struct W : state<> { typedef mpl::vector<E> deferred_events; }; struct R : state<> {};
+  typedef W initial_state;
+  struct transition_table : mpl::vector< Row<W,N,R,none,none>, Row<R,E,none,RaiseX,none>, Row<R,X1,none,LogX,none>, Row<R,Y1,none,LogY,none> > {};
+  template<class Fsm,class Ev> void no_transition(Ev const&,Fsm&,int){ ++g_nt; }
+};
+typedef BE<QF_> QF;
+#endif
 int main(int argc, char** argv) {
   if (argc > 1) g_only = argv[1];
+#if !IS_MP11
+  { g_qlog.clear(); g_nt = 0; QF m; m.start(); m.process_event(E(1)); m.process_event(N()); const std::string after_n = g_qlog;
+    m.process_event(Y1());
+    report("queue-before-deferred.event-raised-by-a-re-offered-deferred-event-runs-right-after-it", after_n == "D1 X " && g_qlog == "D1 X Y " && g_nt == 0, "C04,C05",
+           "after N=[" + after_n + "] in the end=[" + g_qlog + "] nt=" + std::to_string(g_nt)); }
+#endif
 #if !IS_MP11
   { g_seen.clear(); g_nt = 0; DT m; m.start();
     m.process_event(N());                                   // inner: Calm -> Hold (defers E)
